@@ -134,9 +134,13 @@ def w_str(s):
     return {"text": t[1], "back": pushed(t[1])}
 
 
-def w_dict(s):
+# every dictionary-compression element of the table the check covers (Vyxal 2 has one)
+DICT_ELEMENTS = ("øD",)
+
+
+def w_dict(s, key="øD"):
     plain = pushed("`" + s + "`")
-    t = apply_element("øD", [s])
+    t = apply_element(key, [s])
     if t[0] != "str":
         return {"stage": "compress", "got": t, "plain": plain}
     return {"text": t[1], "back": pushed(t[1]), "plain": plain}
@@ -155,6 +159,10 @@ def w_base(item):
     if t[0] == "list" and all(d[0] == "int" for d in t[1]) and t[1]:
         r["back"] = apply_element("β", [[sympy.Integer(d[1]) for d in t[1]], sympy.Integer(b)])
     return r
+
+
+def w_dict_item(item):
+    return w_dict(item[1], item[0])
 
 
 def w_alpha(item):
@@ -233,6 +241,86 @@ def dict_strings(rng, words, count):
             s = s.capitalize()
         out.append(s)
     return out
+
+
+# ADDED FAMILY (dictionary word-length classes).  The random mixes above draw words uniformly
+# from the dictionary, so a word LENGTH that only a handful of the ~23 000 words have (the
+# longest ones, and the lengths just below them) is practically never part of a text, although
+# the dictionary DP of the compression element indexes its table by exactly that length
+# (window ind-max_word_len..ind, prefix DP[ind-len]).  The sweep below is stratified by word
+# length instead, uniformly for whatever lengths the dictionary of the tree under test has:
+#   * every dictionary word alone (all length classes, exhaustive);
+#   * per length class a set of "base" words - ALL words of a class with at most `rare_max`
+#     words, `per_class` rng-chosen ones of a larger class - each put into every context of a
+#     fixed context family (after/before fillers shorter and longer than max_word_len, doubled,
+#     next to other words, one character short / long, first letter's case flipped);
+#   * texts of 2..6 words where first the length class is chosen uniformly and then the word,
+#     so that a text mixes rare and common lengths with equal weight.
+# Nothing here names a word, a length or an element: the classes come from the dictionary.
+def length_classes(words):
+    by_len = {}
+    for w in words:
+        by_len.setdefault(len(w), []).append(w)
+    return dict(sorted(by_len.items()))
+
+
+def word_contexts(rng, w, other, maxw):
+    """the context family for one base word; `other()` draws a class-stratified word"""
+    letters = LOWER[1:]
+    junk = "0123456789#%&*+=@^_~|"
+    long_junk = "".join(rng.choice(junk) for _ in range(maxw + 1 + rng.randint(0, 3)))
+    fillers = [" ", rng.choice(letters), rng.choice(junk) + rng.choice(junk), ", ", long_junk,
+               "".join(rng.choice(letters) for _ in range(maxw - 1)),
+               "".join(rng.choice(letters) for _ in range(maxw))]
+    out = [w]
+    for f in fillers:
+        out += [f + w, w + f, f + w + f]
+    out += [w + w, w + " " + w, w + w + w]
+    a, b = other(), other()
+    out += [a + w, w + a, a + " " + w, w + " " + a, a + w + b, a + " " + w + " " + b, a + ", " + w + ". " + b]
+    out += [w[:-1], w[1:], w + rng.choice(letters), rng.choice(letters) + w, w[:-1] + w, w + w[1:],
+            w[:1].swapcase() + w[1:], w.upper() if w != w.upper() else w.lower()]
+    return out
+
+
+def length_class_sweep(rng, words, per_class, rare_max, n_mixed, maxw):
+    """-> (texts, is_rare flags, info)"""
+    classes = length_classes(words)
+    lens = list(classes)
+
+    def other():
+        return rng.choice(classes[rng.choice(lens)])
+
+    texts, rare = [], []
+    seen = set()
+
+    def add(t, r):
+        if t not in seen and all(c in ASCII_OK for c in t):
+            seen.add(t)
+            texts.append(t)
+            rare.append(r)
+
+    info = {}
+    for ln, ws in classes.items():
+        is_rare = len(ws) <= rare_max
+        base = list(ws) if is_rare else rng.sample(ws, per_class)
+        info[str(ln)] = {"words": len(ws), "base_words_in_every_context": len(base), "exhaustive": is_rare}
+        for w in base:
+            for t in word_contexts(rng, w, other, maxw):
+                add(t, is_rare)
+    n_ctx = len(texts)
+    for _ in range(n_mixed):
+        parts = []
+        for _ in range(rng.randint(2, 6)):
+            parts.append(other())
+            parts.append(rng.choice(["", " ", " ", ", ", "-", "'s ", "0"]))
+        add("".join(parts[:-1] if rng.random() < 0.7 else parts), False)
+    n_mix = len(texts) - n_ctx
+    for w in words:
+        add(w, False)
+    return texts, rare, {"length_classes": info, "context_texts": n_ctx, "class_stratified_multi_word_texts": n_mix,
+                         "single_words(every dictionary word)": len(texts) - n_ctx - n_mix,
+                         "rare_class_threshold": rare_max, "max_text_len": max(map(len, texts))}
 
 
 # ----------------------------------------------------------------------------
@@ -519,34 +607,50 @@ def oracle(env):
     words = [w for w in D.contents if w and all(c in ASCII_OK for c in w)]
     dstrs = dict_strings(rng, words, env.budget(600, 6000))
     dstrs += ["".join(t) for t in itertools.product(ASCII_OK, repeat=1)]
-    t0 = time.time()
-    res = V.pmap(w_dict, dstrs, timeout=60)
-    V.log(f"[C15] oracle dictionary: {len(dstrs)} in {time.time() - t0:.1f}s")
+    n_mix = len(dstrs)
+    # the word-length-class sweep (see length_class_sweep): the oracle runs all of it; the model is
+    # evaluated inside Coq on every text built on a word of a rare length class (capped) and a sample of the rest
+    sweep, rare, sweep_info = length_class_sweep(rng, words, env.budget(30, 250), env.budget(100, 250),
+                                                 env.budget(1500, 12000), D.max_word_len)
+    dstrs += sweep
+    rare_idx = [n_mix + k for k, r in enumerate(rare) if r]
+    rest_idx = [n_mix + k for k, r in enumerate(rare) if not r]
+    to_coq = set(range(n_mix))
+    to_coq.update(rng.sample(rare_idx, min(len(rare_idx), env.budget(800, 4000))))
+    to_coq.update(rng.sample(rest_idx, min(len(rest_idx), env.budget(400, 3000))))
     saved = shorter = 0
     cpset = set(ENC.codepage)
-    for s, (st, r) in zip(dstrs, res):
-        if st != "ok":
-            bad_status("dict", {"s": s}, st, r)
-            continue
-        if r["plain"] != ["str", s]:
-            env.fail({"kind": "dict", "s": s}, f"the plain literal `s` pushes {r['plain']!r}", cls="dict-plain-literal")
-        if "stage" in r:
-            env.fail({"kind": "dict", "s": s}, f"øD does not produce text: {r['got']}", cls="dict-compress-error")
-            continue
-        text = r["text"]
-        if r["back"] != ["str", s]:
-            env.fail({"kind": "dict", "s": s, "text": text}, f"running the compressed literal pushes {r['back']!r}", cls="dict-roundtrip")
-        if len(text) > len(s) + 2 or not set(text) <= cpset:
-            env.fail({"kind": "dict", "s": s, "text": text},
-                     f"compressed literal has {len(text)} characters (all in the code page: {set(text) <= cpset}), the plain literal {len(s) + 2}", cls="dict-longer")
-        if len(text) < len(s) + 2:
-            shorter += 1
-            saved += len(s) + 2 - len(text)
-        lk = [f"({V.cstr(s[i:j])}, {V.cZ(D.lookup[s[i:j]])})" for i in range(len(s)) for j in range(i + 1, len(s) + 1) if s[i:j] in D.lookup]
-        extra.append((f"COpt {V.cstr(s)} {V.clist(lk, '(str * Z)')} {D.max_word_len}%nat {V.cstr(text)}", {"fn": "optimal_compress", "s": s}))
+    for key in DICT_ELEMENTS:
+        t0 = time.time()
+        res = V.pmap(w_dict_item, [(key, s) for s in dstrs], timeout=60)
+        V.log(f"[C15] oracle dictionary {key}: {len(dstrs)} ({len(sweep)} from the length-class sweep) in {time.time() - t0:.1f}s")
+        for idx, (s, (st, r)) in enumerate(zip(dstrs, res)):
+            inp = {"kind": "dict", "s": s} if key == "øD" else {"kind": "dict", "s": s, "element": key}
+            if st != "ok":
+                bad_status("dict", inp, st, r)
+                continue
+            if r["plain"] != ["str", s]:
+                env.fail(inp, f"the plain literal `s` pushes {r['plain']!r}", cls="dict-plain-literal")
+            if "stage" in r:
+                env.fail(inp, f"{key} does not produce text: {r['got']}", cls="dict-compress-error")
+                continue
+            text = r["text"]
+            if r["back"] != ["str", s]:
+                env.fail({**inp, "text": text}, f"running the compressed literal pushes {r['back']!r}", cls="dict-roundtrip")
+            if len(text) > len(s) + 2 or not set(text) <= cpset:
+                env.fail({**inp, "text": text},
+                         f"compressed literal has {len(text)} characters (all in the code page: {set(text) <= cpset}), the plain literal {len(s) + 2}", cls="dict-longer")
+            if len(text) < len(s) + 2:
+                shorter += 1
+                saved += len(s) + 2 - len(text)
+            if key == "øD" and idx in to_coq:
+                lk = [f"({V.cstr(s[i:j])}, {V.cZ(D.lookup[s[i:j]])})" for i in range(len(s)) for j in range(i + 1, len(s) + 1) if s[i:j] in D.lookup]
+                extra.append((f"COpt {V.cstr(s)} {V.clist(lk, '(str * Z)')} {D.max_word_len}%nat {V.cstr(text)}", {"fn": "optimal_compress", "s": s}))
     env.count(len(dstrs), (f"dict:{s}" for s in dstrs))
-    notes["dictionary_strings"] = {"total": len(dstrs), "strictly_shorter_than_plain": shorter, "characters_saved": saved,
-                                   "ascii_dictionary_words_available": len(words)}
+    notes["dictionary_strings"] = {"total": len(dstrs), "random_mixes_and_single_characters": n_mix, "elements": list(DICT_ELEMENTS),
+                                   "strictly_shorter_than_plain": shorter, "characters_saved": saved,
+                                   "ascii_dictionary_words_available": len(words), "evaluated_in_coq": len(to_coq)}
+    notes["dictionary_length_class_sweep"] = sweep_info
     k = next((i for i, (s, (st, r)) in enumerate(zip(dstrs, res)) if st == "ok" and "text" in r and len(r["text"]) < len(s)), 0)
     env.sample({"dict": dstrs[k], "compressed": res[k][1].get("text") if res[k][0] == "ok" else None})
 
@@ -616,6 +720,8 @@ def run(env):
                 "(all 255^k-1, 255^k, 255^k+1; a quarter of the powers of 256, 10, 2, 27, 160; random 4..120-digit numbers); "
                 "s -> øc -> run -> s for every string of length 1..L over [a-z ] not starting with a space (L=2 quick, 3 thorough), random ones to length 80, and the empty string; "
                 "s -> øD -> run -> s with len(text) <= len(s)+2 for random concatenations of dictionary words, ASCII chunks and separators (printable ASCII without backslash/back-quote, to length 80) and every single ASCII character; "
+                "the same through a sweep stratified by dictionary word length: every dictionary word alone, every word of each rare length class (<= 100 words quick / 250 thorough) and 30 / 250 rng-chosen words of each common class "
+                "in a fixed family of contexts (fillers shorter/longer than max_word_len before and after, doubled, beside other words, one character short/long, case flipped), and multi-word texts whose words are drawn class-first; "
                 "elements τ then β (templates executed on a stack) for every base 2..300 with n in {0,1,b-1,b,b+1}, random n < b^6 and b^k-1,b^k,b^k+1 up to 10^120, digits inside the base; helpers' digit/alphabet round trips on the same inputs. "
                 "CORRESPONDENCE (evaluated in Coq): model vs implementation for to_base_digits, from_base_digits, to_base_alphabet, from_base_alphabet, "
                 "uncompress_num, uncompress_str, uncompress_dict, element to_base, øC, øc, øD. Non-trivial = every case (all change the value); distinct by canonical input.")
@@ -648,7 +754,7 @@ def replay(rec):
     elif kind == "lower":
         print(inp, w_str(inp["s"]))
     elif kind == "dict":
-        print(inp, w_dict(inp["s"]))
+        print(inp, w_dict(inp["s"], inp.get("element", "øD")))
     elif kind == "base":
         print(inp, w_base((inp["n"], inp["b"])))
     else:
